@@ -18,7 +18,7 @@ TECHNIQUE = (
 )
 RULE = (
     "Generated configurations: order n in 1-3 (quick: 1-2) with matching order n-1, unpolarised / polarised / time-like, "
-    "POLE masses, one heavy-quark threshold crossed upward or downward (inversion exact or expanded), a pair of matching "
+    "POLE masses, one heavy-quark threshold (charm, bottom or top position in the mass list) crossed upward or downward (inversion exact or expanded), a pair of matching "
     "ratios (k1, k2) in [0.5, 2] differing by >= 30%, smooth toy inputs including an intrinsic heavy component, log grid on "
     "[0.05, 1] (6 points quick, 8-10 thorough, 15 points degree 4 for n=3), alpha_s(threshold) <= 0.25 scaled by lambda in {1, 1/2, "
     "1/4, 1/8} (n=3: {1, 1/2, 1/4}; quick tier: {1/2, 1/4, 1/8}). R(lambda) = max over flavours and grid points of |f_k1 - f_k2| at the common final "
@@ -55,7 +55,7 @@ def strategy(tier):
         if mode == "tl" and n == 3:
             mode = "unpol"  # time-like matching is documented only up to NLO
         up = draw(st.booleans())
-        nfl = draw(st.sampled_from((3, 4)))
+        nfl = draw(st.sampled_from((3, 4, 5)))
         m = draw(st.floats(4.0, 6.0))
         k1 = draw(st.floats(0.5, 2.0))
         k2 = draw(st.floats(0.5, 2.0))
@@ -63,7 +63,9 @@ def strategy(tier):
             k1, k2 = 0.7, 1.6
         masses = [1.0, 4.5, 173.0]
         masses[nfl - 3] = m
-        if nfl == 4:
+        if nfl == 5:
+            masses[0], masses[1] = 0.4, 0.6  # charm and bottom walls far below every scale used: the top threshold is crossed
+        elif nfl == 4:
             masses[0] = 0.6  # charm wall far below every scale used
         else:
             masses[1] = 40.0  # bottom wall far above every scale used
